@@ -8,11 +8,14 @@ from __future__ import annotations
 
 from .absint import TOP, Obj, SliceV, Unmodelled
 
-REPRESENTATIVES = {
-    "increasing": [1.0, 2.0, 4.0, 7.0],
-    "decreasing": [7.0, 4.0, 2.0, 1.0],
-    "neither": [1.0, 4.0, 2.0, 7.0],
+# several vectors per class: large, small (< 1) and negative steps, so that a test against another threshold than 0
+# (a constant off by one) does not happen to give the right answer
+REPRESENTATIVES_ALL = {
+    "increasing": [[1.0, 2.0, 4.0, 7.0], [0.1, 0.2, 0.4, 0.7], [-7.0, -4.0, -2.0, -1.5]],
+    "decreasing": [[7.0, 4.0, 2.0, 1.0], [0.7, 0.4, 0.2, 0.1], [-1.5, -2.0, -4.0, -7.0]],
+    "neither": [[1.0, 4.0, 2.0, 7.0], [0.1, 0.4, 0.2, 0.7], [4.0, 1.0, 7.0, 2.0], [-1.0, -4.0, -2.0, -7.0]],
 }
+REPRESENTATIVES = {k: v[0] for k, v in REPRESENTATIVES_ALL.items()}
 
 _CMP = {"lt": lambda a, b: a < b, "gt": lambda a, b: a > b, "lte": lambda a, b: a <= b, "gte": lambda a, b: a >= b,
         "le": lambda a, b: a <= b, "ge": lambda a, b: a >= b, "eq": lambda a, b: a == b, "noteq": lambda a, b: a != b, "ne": lambda a, b: a != b}
